@@ -17,7 +17,8 @@ ASSUMPTIONS = [
     "the kernel accepts at most len bytes per send (script well-formedness)",
     "TLS sockets: covered by the C18 harness (same accounting predicate), not here",
 ]
-TRUSTED = ["tools/cxx2lean.py (source-derived tie, DESIGN.md 0.7): clang-14 JSON AST, chrono unit semantics read from the desugared types, unbounded Int for signed arithmetic (overflow = UB), abstract memcmp / container queries",
+TRUSTED = ["tools/cxx2lean_eff.py (stage 2, DESIGN.md 0.7.1): world boundary (DoPoll, Interrupted, Clock::now, ::send, ::recv, SocketError opaque; handles dropped), C++ evaluation order, pointer = offset, string_view = (offset, length), objects = fields; Model/GenWorld.lean reads the model answers as C results",
+           "tools/cxx2lean.py (source-derived tie, DESIGN.md 0.7): clang-14 JSON AST, chrono unit semantics read from the desugared types, unbounded Int for signed arithmetic (overflow = UB), abstract memcmp / container queries",
            "vos shim (send/recv/poll interposition, virtual clock)", "FNV-1a hashes stand in for byte-wise comparison of large payloads",
            "the transcript parser of Drive/C01.lean (lines -> typed observations Spec.C01.Obs); the predicate itself is Spec/C01.lean and is "
            "no longer trusted to be consistent with the model: spec_holds_on_model proves that it accepts every trace of the model. What stays "
